@@ -236,6 +236,14 @@ def check_config(config: dict) -> None:
         raise TOMLConfigError(
             f"Interface_cap {intf_cap} < interface[-2]={intf[-2]}"
         )
+    if intf_cap is not False:
+        # a wire fencing ensemble shoots from frames in [interface, cap)
+        for intf_i, move in zip(intf[:-1], sh_moves[1:]):
+            if move == "wf" and intf_cap <= intf_i:
+                raise TOMLConfigError(
+                    f"Interface_cap {intf_cap} leaves no room for wire "
+                    f"fencing in the ensemble with interface {intf_i}!"
+                )
 
     # engine checks
     unique_engines = []
